@@ -81,6 +81,13 @@ def Kind.promote : Kind → Kind
   | .ifaceTy id e => .inst id e
   | k => k
 
+/-- the default name of `import id: <local name>`: the interface path if the local name denotes an
+    instance that has one, else the identifier being bound -/
+def Kind.importNameOr (k : Kind) (id : Str) : Str :=
+  match k with
+  | .inst (some p) _ => p
+  | _ => id
+
 /-- the interface path associated with an instance kind -/
 def Kind.instId : Kind → Option Str
   | .inst id _ => id
@@ -215,6 +222,10 @@ inductive Prov where
   /-- a type declared in the document -/
   | defn (name : Str)
 deriving DecidableEq, Repr
+
+def Prov.isDefn : Prov → Bool
+  | .defn _ => true
+  | _ => false
 
 inductive InstOp where
   | access
